@@ -137,7 +137,10 @@ def dispatcher_kwargs(chk, m):
                         if fn.endswith(".get_impl") and n.targets[0].id not in impl_names:
                             impl_names.add(n.targets[0].id)
                             changed = True
-                        elif fn.endswith("partial") and v.args and isinstance(v.args[0], ast.Name) and v.args[0].id in impl_names:
+                        elif fn.endswith("partial") and v.args and (
+                            (isinstance(v.args[0], ast.Name) and v.args[0].id in impl_names)
+                            or (isinstance(v.args[0], ast.Call) and (dotted(v.args[0].func) or "").endswith(".get_impl"))
+                        ):
                             new_kw = {k.arg for k in v.keywords if k.arg}
                             if not new_kw <= partial_kw or n.targets[0].id not in impl_names:
                                 partial_kw |= new_kw
